@@ -204,6 +204,14 @@ func isNoEffectExternal(name string) bool {
 func (e *Engine) instrsModSet(ms map[string]bool, fn *ssa.Function, blocks []*ssa.BasicBlock, locals map[*ssa.Alloc]bool) {
 	for _, b := range blocks {
 		for _, ins := range b.Instrs {
+			e.instrsModSetOne(ms, fn, ins, locals)
+		}
+	}
+}
+
+func (e *Engine) instrsModSetOne(ms map[string]bool, fn *ssa.Function, ins ssa.Instruction, locals map[*ssa.Alloc]bool) {
+	{
+		{
 			switch in := ins.(type) {
 			case *ssa.Store:
 				e.addStoreTarget(ms, in.Addr, locals)
@@ -217,8 +225,40 @@ func (e *Engine) instrsModSet(ms map[string]bool, fn *ssa.Function, blocks []*ss
 				// concurrent context: not part of the sequential effect
 			case *ssa.MakeClosure:
 				// closure created here may run here (defer / direct call handled at the call), or later; include its effects
-				for k := range e.ModSet(in.Fn.(*ssa.Function)) {
-					ms[k] = true
+				cfn := in.Fn.(*ssa.Function)
+				ownFV := map[*ssa.FreeVar]bool{}
+				for i, b := range in.Bindings {
+					if a, ok := b.(*ssa.Alloc); ok && locals[a] && i < len(cfn.FreeVars) {
+						ownFV[cfn.FreeVars[i]] = true
+					}
+				}
+				if len(ownFV) == 0 {
+					for k := range e.ModSet(cfn) {
+						ms[k] = true
+					}
+					break
+				}
+				// atomic operations of the closure on captured variables that are this function's own allocations
+				// (`var v atomic.Value`) write fresh memory, like direct stores into own allocations
+				cown := map[*ssa.Alloc]bool{}
+				for _, b := range cfn.Blocks {
+					for _, ci := range b.Instrs {
+						if a, ok := ci.(*ssa.Alloc); ok {
+							cown[a] = true
+						}
+					}
+				}
+				for _, b := range cfn.Blocks {
+					for _, ci := range b.Instrs {
+						if cc, ok := ci.(*ssa.Call); ok {
+							if cal := cc.Call.StaticCallee(); cal != nil && strings.HasPrefix(cal.String(), "(*sync/atomic.") && len(cc.Call.Args) > 0 {
+								if fv := freeVarRoot(cc.Call.Args[0]); fv != nil && ownFV[fv] {
+									continue
+								}
+							}
+						}
+						e.instrsModSetOne(ms, cfn, ci, cown)
+					}
 				}
 			}
 		}
@@ -255,6 +295,12 @@ func (e *Engine) callModSet(ms map[string]bool, c *ssa.CallCommon, locals map[*s
 		}
 		if full := callee.String(); strings.HasPrefix(full, "(*sync/atomic.") && !strings.HasSuffix(full, ").Load") {
 			// atomic cells are modelled as plain cells (externals.go): a Store/Swap/Add/CompareAndSwap writes that class
+			// (not when the cell is a variable this function allocated itself: fresh memory)
+			if len(c.Args) > 0 {
+				if a := allocRoot(c.Args[0]); a != nil && locals[a] {
+					return
+				}
+			}
 			if strings.HasPrefix(full, "(*sync/atomic.Value).") {
 				ms["C|"+e.typeStr(emptyIface)] = true
 			} else if sig := callee.Signature; sig.Params().Len() > 0 {
@@ -634,6 +680,130 @@ func (fr *Frame) havocCaptured(c *ssa.CallCommon, st *State) {
 	}
 }
 
+// freeVarRoot: the captured variable an address is derived from (nil if none).
+func freeVarRoot(v ssa.Value) *ssa.FreeVar {
+	for i := 0; i < 10; i++ {
+		switch x := v.(type) {
+		case *ssa.FreeVar:
+			return x
+		case *ssa.FieldAddr:
+			v = x.X
+		case *ssa.IndexAddr:
+			v = x.X
+		default:
+			return nil
+		}
+	}
+	return nil
+}
+
+// havocGo: a `go` statement starts a body that is not executed here. Its effects may become visible at any
+// later point; they are over-approximated at the statement: every captured variable the body assigns (directly
+// or through sync/atomic.Value.Store) and every heap class in the body's mod-set becomes arbitrary.
+func (fr *Frame) havocGo(c *ssa.CallCommon, st *State) {
+	vc := fr.vc
+	mc, ok := c.Value.(*ssa.MakeClosure)
+	if !ok {
+		return
+	}
+	fn := mc.Fn.(*ssa.Function)
+	written := map[*ssa.FreeVar]bool{}
+	atomicW := map[*ssa.FreeVar]bool{}
+	atomicT := map[*ssa.FreeVar][]types.Type{} // concrete types stored into a captured atomic.Value (nil entry: unknown)
+	for _, b := range fn.Blocks {
+		for _, ins := range b.Instrs {
+			switch in := ins.(type) {
+			case *ssa.Store:
+				if fv := freeVarRoot(in.Addr); fv != nil {
+					written[fv] = true
+				}
+			case *ssa.Call:
+				if cal := in.Call.StaticCallee(); cal != nil && strings.HasPrefix(cal.String(), "(*sync/atomic.") && len(in.Call.Args) > 0 {
+					if fv := freeVarRoot(in.Call.Args[0]); fv != nil {
+						atomicW[fv] = true
+						var ct types.Type
+						if cal.String() == "(*sync/atomic.Value).Store" && len(in.Call.Args) == 2 {
+							if mi, ok := in.Call.Args[1].(*ssa.MakeInterface); ok && !types.IsInterface(mi.X.Type()) {
+								ct = mi.X.Type()
+							}
+						}
+						atomicT[fv] = append(atomicT[fv], ct)
+					}
+				}
+			}
+		}
+	}
+	// what the goroutine body may write, except atomic operations on captured variables themselves
+	// (`var v atomic.Value` of the spawning function): those are modelled individually below
+	ms := map[string]bool{}
+	{
+		own := map[*ssa.Alloc]bool{}
+		for _, b := range fn.Blocks {
+			for _, ins := range b.Instrs {
+				if a, ok := ins.(*ssa.Alloc); ok {
+					own[a] = true
+				}
+			}
+		}
+		for _, b := range fn.Blocks {
+			for _, ins := range b.Instrs {
+				if in, ok := ins.(*ssa.Call); ok {
+					if cal := in.Call.StaticCallee(); cal != nil && strings.HasPrefix(cal.String(), "(*sync/atomic.") && len(in.Call.Args) > 0 && freeVarRoot(in.Call.Args[0]) != nil {
+						continue
+					}
+				}
+				vc.E.instrsModSetOne(ms, fn, ins, own)
+			}
+		}
+	}
+	var later []goStore
+	for i, b := range mc.Bindings {
+		if i >= len(fn.FreeVars) {
+			break
+		}
+		fv := fn.FreeVars[i]
+		if !written[fv] && !atomicW[fv] {
+			continue
+		}
+		if root := allocRoot(b); root != nil {
+			if cell := fr.locals[root]; cell != nil {
+				st.cells[cell] = vc.freshVal("go_"+cell.Name, cell.Typ).Ts
+				continue
+			}
+		}
+		if ts := atomicT[fv]; atomicW[fv] && !written[fv] && len(ts) == 1 && ts[0] != nil && types.Identical(fv.Type(), b.Type()) {
+			if pt, ok := b.Type().Underlying().(*types.Pointer); ok && isAtomicValue(pt.Elem()) {
+				// one atomic.Value.Store(x) with x of concrete type T: afterwards the cell holds its old content or some T
+				ref := vc.materialize(fr.get(b))
+				later = append(later, goStore{ref, ts[0], vc.loadAddr(st, &Addr{Kind: aCell, Typ: emptyIface, Ref: ref})})
+				continue
+			}
+		}
+		vc.E.pointeeEffects(ms, b.Type())
+		if atomicW[fv] {
+			ms["C|"+vc.E.typeStr(emptyIface)] = true
+		}
+	}
+	vc.havocClasses(st, ms)
+	for _, g := range later {
+		a := &Addr{Kind: aCell, Typ: emptyIface, Ref: g.ref}
+		oldv := g.old // the cell is reachable only through the captured variable: the mod-set havoc above does not concern it
+		nv := vc.makeInterface(vc.freshVal("go_atomic", g.typ), g.typ, emptyIface)
+		pick := vc.fresh("go_ran", SortBool)
+		out := make([]T, len(nv.Ts))
+		for i := range nv.Ts {
+			out[i] = Ite(pick, nv.Ts[i], oldv.Ts[i])
+		}
+		vc.storeAddr(st, a, Val{Typ: emptyIface, Ts: out})
+	}
+}
+
+type goStore struct {
+	ref T
+	typ types.Type
+	old Val
+}
+
 func (fr *Frame) backEdge(from, to *ssa.BasicBlock, cond T, st *State) {
 	fr.curLoop = to
 	defer func() { fr.curLoop = nil }()
@@ -822,4 +992,9 @@ func (vc *VC) ghostAssigned() []string {
 	}
 	sort.Strings(out)
 	return out
+}
+
+func isAtomicValue(t types.Type) bool {
+	n, ok := t.(*types.Named)
+	return ok && n.Obj().Pkg() != nil && n.Obj().Pkg().Path() == "sync/atomic" && n.Obj().Name() == "Value"
 }
